@@ -436,7 +436,9 @@ func oracleC01(r *OpRun) {
 					switch {
 					case !ok:
 						sig := "missing-object"
-						if sh := shownBy[k]; len(sh) > 0 && sh[0].Type == "List" && sh[0].Seq > syncX.StartSeq {
+						if r.noInformerFor(mid, o.GetNamespace()) && r.e.S.Counters["fault:list-failed"] > 0 && b.NsLabel != nil {
+							sig = "dynamic-namespace-list-failure-not-retried"
+						} else if sh := shownBy[k]; len(sh) > 0 && sh[0].Type == "List" && sh[0].Seq > syncX.StartSeq {
 							sig = "object-present-when-namespace-informer-started"
 						} else if r2during {
 							sig = "second-reader-during-sync"
@@ -501,7 +503,6 @@ func (r *OpRun) oracleC01Group(h *HookSpec, b *KubeBinding, mid string, execs []
 		events = []string{"Added", "Modified", "Deleted"}
 	}
 	p := r.sc.proj(b.JqFilter)
-	var lastEm *emission
 	unlocked := int64(1 << 62)
 	for _, ri := range r.obs.ByMonitor(mid) {
 		for _, u := range ri.Unlocks {
@@ -510,67 +511,94 @@ func (r *OpRun) oracleC01Group(h *HookSpec, b *KubeBinding, mid string, execs []
 			}
 		}
 	}
+	// the last demanded change per object after the unlock
+	lastEm := map[string]emission{}
 	for _, ri := range r.obs.ByMonitor(mid) {
 		es, _ := refEmissions(ri.Shown, events, p)
-		for i := range es {
-			if es[i].Seq > unlocked && (lastEm == nil || es[i].Seq > lastEm.Seq) {
-				lastEm = &es[i]
-			}
-		}
-	}
-	if lastEm == nil {
-		return
-	}
-	var lastG *Exec
-	var snap []ObjRef
-	for _, x := range execs {
-		if x.Hook != h.Path || x.Fail {
-			continue
-		}
-		for _, c := range x.Ctxs {
-			if c.Type == "Group" {
-				if l, ok := c.Snapshots[b.Name]; ok {
-					lastG, snap = x, l
+		for _, em := range es {
+			if em.Seq > unlocked {
+				if cur, ok := lastEm[em.Key]; !ok || em.Seq > cur.Seq {
+					lastEm[em.Key] = em
 				}
 			}
 		}
 	}
-	simrt.Count("probe:group-binding-with-change")
-	if lastG == nil || lastG.StartSeq < lastEm.Seq {
-		// allowFailure bindings may have had their last Group execution dropped
-		if b.AllowFailure {
-			return
-		}
-		n := 0
-		if lastG != nil {
-			n = lastG.N
-		}
-		r.e.Viol("C01", "O5", "change-without-group-execution", "binding %s (group %s) of %s: change %s is not followed by a successful Group execution (last one: #%d)", b.Name, b.Group, h.Path, lastEm.String(), n)
+	if len(lastEm) == 0 {
 		return
 	}
-	want := matchingSet(r.o.API, b)
-	got := map[string]uint64{}
-	for _, o := range snap {
-		got[o.Key()] = o.RV
-	}
-	for k, o := range want {
-		if rv, ok := got[k]; !ok || (b.JqFilter == "" && rv != rvOf(o)) {
-			sig := "group-snapshot-stale"
-			if sh := r.firstShown(mid, k); sh != nil && sh.Type == "List" && sh.Seq > unlocked {
-				sig = "object-present-when-namespace-informer-started"
+	simrt.Count("probe:group-binding-with-change")
+	for k, em := range lastEm {
+		// a successful Group execution that started after the change and reflects it
+		ok := false
+		lastN := 0
+		for _, x := range execs {
+			if x.Hook != h.Path || x.Fail || x.StartSeq < em.Seq {
+				continue
 			}
-			r.e.Viol("C01", "O5", sig, "binding %s (group %s) of %s: last Group execution #%d shows %s, final cluster has %s@%d", b.Name, b.Group, h.Path, lastG.N, listString(snap), k, rvOf(o))
+			for _, c := range x.Ctxs {
+				if c.Type != "Group" {
+					continue
+				}
+				l, has := c.Snapshots[b.Name]
+				if !has {
+					continue
+				}
+				lastN = x.N
+				present := false
+				for _, o := range l {
+					if o.Key() == k {
+						present = true
+						if em.Type != "Deleted" && o.RV >= em.RV {
+							ok = true
+						}
+					}
+				}
+				if em.Type == "Deleted" && !present {
+					ok = true
+				}
+				if em.Type != "Deleted" && !present && r.deletedLater(gvrOfKind(b.Kind).Resource, k, em.RV) {
+					ok = true // the snapshot already shows a later state: the object is gone again
+				}
+				// a later re-creation also supersedes a deletion
+				if em.Type == "Deleted" && present {
+					ok = ok || false
+				}
+			}
+		}
+		if !ok {
+			if b.AllowFailure {
+				continue // its Group execution may have failed and been dropped
+			}
+			if r.headAllowsFailureSomewhere(h) {
+				continue // may have been combined behind an allowFailure head and dropped (C04 known finding)
+			}
+			r.e.Viol("C01", "O5", "change-not-reflected-by-group-execution", "binding %s (group %s) of %s: change %s is not followed by a successful Group execution whose snapshots reflect it (last Group execution with that snapshot: #%d)", b.Name, b.Group, h.Path, em.String(), lastN)
 		}
 	}
-	for k := range got {
-		if _, ok := want[k]; !ok {
-			sig := "group-snapshot-ghost"
-			if r.onlyListed(mid, k) {
-				sig = "two-list-gap"
-			}
-			r.e.Viol("C01", "O5", sig, "binding %s (group %s) of %s: last Group execution #%d shows %s which is not in the final cluster", b.Name, b.Group, h.Path, lastG.N, k)
+}
+
+func (r *OpRun) deletedLater(resource, key string, rv uint64) bool {
+	for _, w := range r.o.API.Log {
+		if w.GVR.Resource == resource && w.Obj.GetNamespace()+"/"+w.Obj.GetName() == key && w.RV > rv && string(w.Type) == "DELETED" {
+			return true
 		}
 	}
+	return false
+}
+
+// headAllowsFailureSomewhere: the hook has some binding that allows failure.
+func (r *OpRun) headAllowsFailureSomewhere(h *HookSpec) bool {
+	for _, kb := range h.Kube {
+		if kb.AllowFailure {
+			return true
+		}
+	}
+	for _, sb := range h.Sched {
+		if sb.AllowFailure {
+			return true
+		}
+	}
+	return false
 }
 
 func (r *OpRun) firstShown(mid, key string) *shownRec {
